@@ -162,9 +162,11 @@ package ipfix
 //@   ensures (len(old(d.reader.base)) < 16 || be16(old(d.reader.base), 0) != 10) ==> result == nil && err != nil
 //@   ensures result != nil ==> mhdrAt(result.Header, old(d.reader.base), 0)
 //@   ensures result == nil ==> err != nil
+//@   ensures result != nil ==> jssafe(result.AgentID) && result.AgentID == ipText(d.raddr)
 //@   ensures [records] result != nil ==> len(result.DataSets) <= len(old(d.reader.base))
 //@   modifies d.reader.data, d.reader.count, contents(mem)
 //@   loop 1
+//@     invariant jssafe(msg.AgentID) && msg.AgentID == ipText(d.raddr) && d.raddr == old(d.raddr)
 //@     invariant rdr(d.reader) && d.reader.base == old(d.reader.base) && msg != nil && wellFormed(mem) && d.reader.count >= 16
 //@     invariant mhdrAt(msg.Header, d.reader.base, 0)
 //@     invariant len(msg.DataSets) <= d.reader.count
@@ -214,7 +216,7 @@ package ipfix
 //@ pred jsKey(j ghost.JSON) = (j.Ph == 2 || j.Ph == 3) && jstop(j) == 1 && j.Dp >= 1 && j.Dp <= 2 && jscanon(j)
 
 //@ func (*Message).JSONMarshal
-//@   requires b != nil && b.js.Ph == 0 && b.js.Dp == 0 && jssafe(m.AgentID)
+//@   requires b != nil && b.js.Ph == 0 && b.js.Dp == 0 && jscanon(b.js) && jssafe(m.AgentID)
 //@   ensures [valid] err == nil ==> b.js.Ph == 8
 //@   modifies b
 
@@ -256,7 +258,8 @@ package ipfix
 //@ func (*Message).writeValue
 //@   requires b != nil && 0 <= i && i < len(m.DataSets) && 0 <= j && j < len(m.DataSets[i])
 //@   requires b.js.Ph == 0 && b.js.Dp >= 1 && b.js.Dp <= 5 && jscanon(b.js)
-//@   ensures [value] err == nil ==> b.js == jsset(old(b.js), 5)
+//@   ensures [value] err == nil ==> b.js == jsset(old(b.js), 5) || b.js == jsset(old(b.js), 12)   // 12: the bare token null was written
+//@   opt unreachable cover.ret.1   // json.Marshal of a string cannot fail (assumed library contract)
 //@   exitassert [number] err == nil && iskind(m.DataSets[i][j].Value, int) && typeid(m.DataSets[i][j].Value) != tyof(float32) && typeid(m.DataSets[i][j].Value) != tyof(float64) ==> jsnum(jslast) && jsnumval(jslast) == anyint(m.DataSets[i][j].Value)
 //@   exitassert [address] err == nil && iskind(m.DataSets[i][j].Value, bytes) && typeid(m.DataSets[i][j].Value) == tyof(net.IP) ==> jslast == ipText(anybytes(m.DataSets[i][j].Value))
 //@   exitassert [mac] err == nil && iskind(m.DataSets[i][j].Value, bytes) && typeid(m.DataSets[i][j].Value) == tyof(net.HardwareAddr) ==> jslast == hwText(anybytes(m.DataSets[i][j].Value))
